@@ -135,6 +135,16 @@ pub fn generate_c04(tier: &str, rng: &mut Prng) -> Vec<Case> {
             ops.push(Case::new(line));
             ops.push(Case::traced(format!("key_check {n} {} {} {} {} {}", ints(&f), ints(&g), ints(&cf), ints(&cg), ints(&k.h)), "ok".to_string()));
         }
+        // the whole of key generation in the Lean model (floating point included): same f, g, F, G, h and extreme leaves
+        for i in 0..(if tier == "thorough" { 12 } else { 2 }) {
+            let seed = if i == 0 { vec![n as u8 / 4, 7, 7] } else { seed_for(rng, 6) };
+            ops.push(Case::new(format!("keygen_model {n} {}", hex(&seed))));
+        }
+        for (kind, q) in [("ntt_zero", 1), ("gamma_above", 1), ("range_fg", 1)] {
+            for seed in crate::seeds::special(n, tier, kind, q) {
+                ops.push(Case::new(format!("keygen_model {n} {}", hex(&seed))));
+            }
+        }
         // (see below for the special seeds)
         // seeds whose candidate stream touches one of ntru_gen's guards (corpus/special_seeds.txt): a candidate with a zero
         // NTT slot, a Gram-Schmidt norm next to the bound, coefficients at the range limits
@@ -181,7 +191,7 @@ pub fn oracle_c04(op: &[&str], out: &str) -> Verdict {
 
 fn judge_key(op: &[&str], out: &str) -> Verdict {
     match op[0] {
-        "keygen" => {
+        "keygen" | "keygen_model" => {
             if out.starts_with("PANIC") {
                 return Verdict::Fail(format!("keygen panicked: {out}"));
             }
@@ -542,6 +552,8 @@ pub fn generate_c15(tier: &str, rng: &mut Prng) -> Vec<Case> {
                 }
             }
         }
+        // the whole of key generation in the Lean model: a function of the seed by construction, compared with the real one
+        ops.push(Case::new(format!("keygen_model {n} {}", hex(&[0x15u8, n as u8 / 4, 1]))));
         // seeds whose accepted candidate contains a sampler call with 16 or more rejected rounds in a row (a sampler that
         // changes its source of randomness or gives up on such a run is no longer a function of the seed)
         for seed in crate::seeds::special(n, tier, "long_rejection", 2) {
